@@ -49,7 +49,7 @@ RandRoot(j) ==
           npref |-> C3[1 + (r[6] % 3)], nvbl |-> C3[1 + (r[7] % 3)], nlight |-> C3[1 + (r[8] % 3)], ndd |-> C3[1 + (r[9] % 3)],
           nds |-> C3[1 + (r[10] % 3)]],
          r[11] % 2, NameCls[1 + (r[12] % 4)], r[13] % 2)
-NRandRoot == IF Thorough THEN 4000 ELSE 160
+NRandRoot == IF Thorough THEN 10000 ELSE 160
 
 \* ---- groups
 Group(kind, v, to, a, b, c, d, e, f, g, h, i, xf) ==
@@ -71,7 +71,7 @@ RandGroup(j) ==
     Group("group", 1 + (r[1] % 5), 0, C3[1 + (r[2] % 3)], 3 * C3[1 + (r[3] % 3)], C3[1 + (r[4] % 3)], C3[1 + (r[5] % 3)],
           <<-1, 0, 3>>[1 + (r[6] % 3)], C3[1 + (r[7] % 3)], <<-1, 0, 1, 4>>[1 + (r[8] % 4)], r[9] % 3,
           <<-1, 0, 1, 3>>[1 + (r[10] % 4)], r[11] % 2)
-NRandGroup == IF Thorough THEN 600 ELSE 30
+NRandGroup == IF Thorough THEN 1200 ELSE 30
 
 \* ---- conversions: every (from, to) pair
 RootConv ==
@@ -83,7 +83,7 @@ GroupConv ==
 RandConv(j) ==
     LET r == RandRoot(j + 100000) q == Stream(Start(3, j), 3) IN
     [r EXCEPT !.kind = "rootconv", !.to = 1 + (q[1] % 5), !.sky = IF r.ver >= VWotlk THEN r.sky ELSE 0]
-NRandConv == IF Thorough THEN 500 ELSE 30
+NRandConv == IF Thorough THEN 2000 ELSE 30
 
 Numbered(seq) == [j \in 1..Len(seq) |-> [seq[j] EXCEPT !.id = j]]
 Cases == <<LayoutCase>> \o Numbered(
